@@ -77,15 +77,17 @@ package hsrv
 
 //@ func Server.inOutHandler(s, w, r)
 //@   locals s w r rc err err
-//@   props C01 C06 C03
+//@   props C01 C06 C03 C11
 //@   assumes body: r.Body != nil
 //@   ghost n int = 0
 //@   ghost duplex bool = false
 //@   ghost flushed bool = false
-//@   on call http.ResponseController.EnableFullDuplex(c) (e): assert(!flushed, "full_duplex_is_enabled_before_any_response_byte_is_written"); duplex = true
+//@   ghost dupErr error = nil
+//@   on call http.ResponseController.EnableFullDuplex(c) (e): assert(!flushed, "full_duplex_is_enabled_before_any_response_byte_is_written"); duplex = true; dupErr = e
 //@   on enter http.ResponseController.Flush(c): assert(duplex, "response_header_is_sent_only_after_full_duplex_is_enabled_so_the_request_body_is_not_discarded"); flushed = true
 //@   on enter Broker.ConnectInOut(b, c, l, a, ww, rr): assert(b == s.iob && ww == w && rr == r.Body && c == r.Context(), "callshape"); assert(duplex, "shell_output_is_read_in_full_duplex_mode"); n++
 //@   ensures at_most_once: n <= 1
+//@   ensures{C11,C03} only_a_stream_that_cannot_run_full_duplex_is_turned_away_before_the_broker_which_keeps_the_records: n == 1 || dupErr != nil
 
 // ---- static files (C09)
 //@ func Server.fileHandler(s, w, r)
